@@ -1145,6 +1145,8 @@ func (c *Checker) checkMethod(
 	name := checkedMethod.Name
 	prevMode := c.mode
 	prevFlags := c.flags
+	prevReturnType := c.returnType
+	prevThrowType := c.throwType
 	isClosure := types.IsCallable(methodNamespace)
 
 	if methodNamespace != nil {
@@ -1316,8 +1318,8 @@ func (c *Checker) checkMethod(
 	checkedMethod.SetHasDefer(c.hasDefer())
 
 	c.setHasDefer(prevHasDefer)
-	c.returnType = nil
-	c.throwType = nil
+	c.returnType = prevReturnType
+	c.throwType = prevThrowType
 	c.mode = prevMode
 	c.flags = prevFlags
 	c.catchScopes = prevCatchScopes
